@@ -166,3 +166,29 @@ def probe(info=JobInfo()):
 @task(memory=5)
 def probetree(info=JobInfo()):
     return [_probe(info), probe(), probe.options(vcpus=8)()]
+
+
+@task()
+def clvl(n, ovs, path, default):
+    obs = [get_context(".".join(path), default), ctxget(), ctxdef(0)]
+    if n <= 0:
+        return obs
+    t = clvl if ovs[0] is None else clvl.update_context(ovs[0])
+    return obs + [t(n - 1, ovs[1:], path, default)]
+
+
+@task(memory=1, vcpus=1)
+def olvl(n, plan, info=JobInfo()):
+    here = _probe(info)
+    if n <= 0:
+        return [here]
+    step = plan[0]
+    opts = dict(step["opts"])
+    for name, k in step["lazy"].items():
+        opts[name] = inc(k)
+    t = olvl
+    if opts:
+        t = t.options(**opts)
+    if step["exp"]:
+        t = t.export_options(**step["exp"])
+    return [here, t(n - 1, plan[1:])]
